@@ -151,7 +151,7 @@ func genC17(t *rapid.T) c17Case {
 // process level: /dev/full and a closed pipe
 
 type c17CLICase struct {
-	Cmd  int    `json:"cmd"` // index into c10CLICmds
+	Cmd  int    `json:"cmd"`  // index into c10CLICmds
 	Sink string `json:"sink"` // "devfull-inprocess" | "devfull-binary" | "closed-pipe-binary"
 	Big  bool   `json:"big"`  // report larger than the stdout buffer
 }
@@ -267,7 +267,100 @@ func c17CLISpace() []c17CLICase {
 	return out
 }
 
+// ---------------------------------------------------------------------------
+// size sweep: report lengths swept finely across buffer boundaries
+
+type c17SweepCase struct {
+	Cmd      int `json:"cmd"` // index into vAPICmds
+	NDays    int `json:"ndays"`
+	LongName int `json:"longname"` // 0, or the byte length of one food name (longer than an output buffer)
+}
+
+func c17SweepTexts(c c17SweepCase) (string, string) {
+	var lb strings.Builder
+	book := "meal:\n  x: 2\n  y: -3\nmeal2:\n  meal: 2\n  x: 1\n"
+	for i := 0; i < c.NDays; i++ {
+		fmt.Fprintf(&lb, "%s:\n  meal: %d\n  snack/bar: 2\n  x: 1\n", vFmtDay(i, ""), i%5+1)
+		if i%7 == 3 {
+			fmt.Fprintf(&lb, "  a/rather/long/category/path/%d: 0.5\n", i)
+		}
+		if i == 0 && c.LongName > 0 {
+			fmt.Fprintf(&lb, "  long/%s: 1\n", strings.Repeat("n", c.LongName-5))
+		}
+	}
+	return lb.String(), book
+}
+
+func checkC17Sweep(c c17SweepCase, ctx *vCtx) *vFailure {
+	cmd := vAPICmds[c.Cmd]
+	logText, bookText := c17SweepTexts(c)
+	call := func(out io.Writer) (error, string) {
+		return vCallAPI(cmd, strings.NewReader(logText), strings.NewReader(bookText), out, "x")
+	}
+	var full bytes.Buffer
+	if err, pan := call(&full); err != nil || pan != "" {
+		vFault("C17 sweep: %s fails with a healthy writer: %v %s", cmd.Name, err, pan)
+	}
+	ctx.Run(1)
+	n := full.Len()
+	ctx.Label("cmd:" + cmd.Name)
+	ctx.Labelf("report-KiB=%d", n/4096*4)
+	ctx.NonTrivial(n > 4096)
+	set := map[int]bool{}
+	for _, k := range []int{1, n / 2, n - 1, n - 100, n - 300, n - 600, n - 2000} {
+		if k >= 0 && k < n {
+			set[k] = true
+		}
+	}
+	if c.LongName > 0 {
+		for k := 0; k < n; k += 509 {
+			set[k] = true
+		}
+	}
+	for k := range set {
+		for _, e := range []error{syscall.ENOSPC} {
+			w := &vFaultWriter{limit: k, err: e}
+			err, pan := call(w)
+			ctx.Run(1)
+			if pan != "" {
+				return vFailf("%s panics when the output sink fails after %d bytes: %s", cmd.Name, k, vTrunc(pan, 800))
+			}
+			if err == nil {
+				return vFailSig("C17/"+cmd.Name+"/write-error-dropped", "%s (log of %d days, report of %d bytes) reports success although the output sink failed after accepting %d bytes", cmd.Name, c.NDays, n, k)
+			}
+		}
+	}
+	return nil
+}
+
+func c17SweepSpace() []c17SweepCase {
+	var out []c17SweepCase
+	maxDays := vPick(140, 260)
+	for ci := range vAPICmds {
+		for nd := 1; nd <= maxDays; nd++ {
+			if !vThorough() && ci >= 7 && nd%4 != 0 { // quick: every length for the register family, every 4th for the rest
+				continue
+			}
+			out = append(out, c17SweepCase{Cmd: ci, NDays: nd})
+		}
+		for _, ln := range []int{4097, 5000, 9000} {
+			for _, nd := range []int{1, 3, 20} {
+				out = append(out, c17SweepCase{Cmd: ci, NDays: nd, LongName: ln})
+			}
+		}
+	}
+	return out
+}
+
+func TestVerifC17Sweep(t *testing.T) {
+	space := c17SweepSpace()
+	vEnum(t, "C17", "c17.sweep",
+		"report sizes swept finely: for every command function a log of 1..140 (thorough 260) days (report lengths from a few bytes to ~60 KiB, so the end of the report falls at every residue of the 4 KiB / 32 KiB buffers), sink failing at {1, n/2, n-1, n-100, n-300, n-600, n-2000}; plus logs with one food name of 4097/5000/9000 bytes (longer than the output buffer) with the sink failing every 509 bytes; must return an error",
+		fmt.Sprintf("%d (command, size) combinations", len(space)), len(space), func(i int) c17SweepCase { return space[i] }, checkC17Sweep)
+}
+
 func init() {
+	vRegister("C17", "c17.sweep", checkC17Sweep)
 	vRegister("C17", "c17.writer", checkC17)
 	vRegister("C17", "c17.cli", checkC17CLI)
 }
